@@ -14,11 +14,13 @@ struct Ctx {
     tokens: Vec<Address>,
     /// 0,1 = spenders U1 U2; 2 = receiver V; 3 = collector; 4 = owner; 5 = stranger
     who: Vec<Address>,
+    owner0: usize,
 }
 
 #[derive(Clone, Hash)]
 struct Model {
     advances: u8,
+    owner_moved: bool,
     /// per token: balances of U1, U2, V, the service, the collector, the stranger
     bal: [[i128; 6]; 3],
     paid: [i128; 3],
@@ -43,6 +45,8 @@ enum Act {
     /// receiver: 0 = V, 1 = the gas collector itself, 2 = an address the third token refuses
     Collect { token: usize, amt: Amt, by: usize, receiver: u8 },
     Refund { token: usize, amt: Amt, by: usize, receiver: u8 },
+    /// the current owner hands the ownership to the stranger (the collector role must not follow)
+    TransferOwnershipToStranger,
     Advance(u32),
 }
 
@@ -67,16 +71,20 @@ impl Scenario for C14 {
     type A = Act;
 
     fn id(&self) -> &'static str { "C14" }
-    fn n_configs(&self) -> usize { 1 }
-    fn config_label(&self, _: usize) -> String { "gas service; tokens: stellar asset contract, native interchain token; U1 holds 3, U2 holds 2 of each".into() }
+    fn n_configs(&self) -> usize { 2 }
+    fn config_label(&self, c: usize) -> String {
+        format!("gas service ({}); tokens: stellar asset contract, native interchain token, a token refusing one recipient; U1 holds 3, U2 holds 2 of each", if c == 0 { "owner and collector distinct" } else { "owner = collector at deployment" })
+    }
     fn world<'a>(&self, ctx: &'a Ctx) -> &'a World { &ctx.w }
 
-    fn build(&self, _c: usize) -> (Ctx, Model) {
+    fn build(&self, c: usize) -> (Ctx, Model) {
         let w = World::new();
         let env = &w.env;
         let who: Vec<Address> = (0..6).map(|_| env.register(Principal, ())).collect();
         let admin = env.register(Principal, ());
-        let gas = env.register(axelar_gas_service::AxelarGasService, (who[4].clone(), who[3].clone()));
+        // who[3] is the collector; in configuration 1 it is also the owner
+        let owner0 = if c == 1 { who[3].clone() } else { who[4].clone() };
+        let gas = env.register(axelar_gas_service::AxelarGasService, (owner0, who[3].clone()));
         let asset = env.register_stellar_asset_contract_v2(admin.clone()).address();
         let native = env.register(
             interchain_token::InterchainToken,
@@ -90,8 +98,8 @@ impl Scenario for C14 {
             }
         }
         (
-            Ctx { w, gas, tokens: vec![asset, native, fussy], who },
-            Model { advances: 0, bal: [[3, 2, 0, 0, 0, 0]; 3], paid: [0; 3], added: [0; 3], collected: [0; 3], refunded: [0; 3] },
+            Ctx { w, gas, tokens: vec![asset, native, fussy], who, owner0: if c == 1 { 3 } else { 4 } },
+            Model { advances: 0, owner_moved: false, bal: [[3, 2, 0, 0, 0, 0]; 3], paid: [0; 3], added: [0; 3], collected: [0; 3], refunded: [0; 3] },
         )
     }
 
@@ -101,6 +109,9 @@ impl Scenario for C14 {
             v.push(Act::Advance(20));
             // ~64 days: longer than any TTL a contract extends to, shorter than the minimum persistent TTL
             v.push(Act::Advance(1_100_000));
+        }
+        if !m.owner_moved {
+            v.push(Act::TransferOwnershipToStranger);
         }
         // third token: refuses transfers to one address; a payout to it must fail as a whole
         v.push(Act::Pay { token: 2, spender: 0, amt: Amt::One, auth: true });
@@ -143,6 +154,16 @@ impl Scenario for C14 {
         let h0 = w.state_hash();
         let payload = b"payload-bytes".to_vec();
         match a {
+            Act::TransferOwnershipToStranger => {
+                out.kind = "transfer_ownership";
+                let o = [ctx.who[ctx.owner0].clone()];
+                let call = w.call(&ctx.gas, "transfer_ownership", &[ctx.who[5].to_val()], Auth::By(&o));
+                out.accepted = call.ok;
+                out.expect(call.ok, "ownership.transfer-failed", || call.err.clone());
+                if call.ok {
+                    m.owner_moved = true;
+                }
+            }
             Act::Advance(n) => {
                 out.kind = "advance";
                 out.accepted = true;
@@ -263,7 +284,7 @@ fn main() {
         let thorough = tier == "thorough";
         let mut o = Opts::new(tier, if thorough { 10 } else { 4 });
         o.min_depth = 3;
-        o.rule = "all sequences over pay_gas / add_gas (2 tokens: stellar asset contract and native interchain token; spenders U1, U2; amounts -1, 0, 1, balance, balance+1; authorised by the spender or by someone else) and collect_fees / refund (amounts -1, 0, 1, held, held+1; by collector, owner, stranger; to a receiver, to the collector itself, and to an address that a third token refuses); after every new state all balances of both tokens and the equation held == paid + added - collected - refunded are compared with the model".into();
+        o.rule = "two configurations (owner and collector distinct / the same address at deployment); all sequences over ownership transfer to the stranger, pay_gas / add_gas (2 tokens: stellar asset contract and native interchain token; spenders U1, U2; amounts -1, 0, 1, balance, balance+1; authorised by the spender or by someone else) and collect_fees / refund (amounts -1, 0, 1, held, held+1; by collector, owner, stranger (who may have become the owner); to a receiver, to the collector itself, and to an address that a third token refuses); after every new state all balances of both tokens and the equation held == paid + added - collected - refunded are compared with the model".into();
         (C14 { thorough }, o)
     });
 }
